@@ -7,7 +7,7 @@ Import ListNotations.
 Open Scope N_scope.
 
 Theorem C07_merge_empty_r :
-  forall (S : schema) (tid : nat) (fs : fields) (u : list byte),
-    msg_merge S tid (VMsg fs u) msg_empty = VMsg fs u.
+  forall (S : schema) (d tid : nat) (fs : fields) (u : list byte),
+    msg_merge S (Datatypes.S d) tid (VMsg fs u) msg_empty = Some (VMsg fs u).
 Proof. exact msg_merge_empty_r. Qed.
 Print Assumptions C07_merge_empty_r.
